@@ -164,21 +164,25 @@ package primitive
 //@ func WriteByte
 //@   prop C03, C02
 //@   assigns wstream(dest)
+//@   ensures inmem: inmemory(dest) ==> result == nil
 //@   ensures len: result == nil ==> written(dest) == old(written(dest)) + 1
 //@   ensures bytes: result == nil ==> wbyte(dest, old(written(dest))) == b
 //@ func WriteShort
 //@   prop C03, C02
 //@   assigns wstream(dest)
+//@   ensures inmem: inmemory(dest) ==> result == nil
 //@   ensures len: result == nil ==> written(dest) == old(written(dest)) + 2
 //@   ensures bytes: result == nil ==> wbe2(dest, old(written(dest))) == i
 //@ func WriteInt
 //@   prop C03, C02
 //@   assigns wstream(dest)
+//@   ensures inmem: inmemory(dest) ==> result == nil
 //@   ensures len: result == nil ==> written(dest) == old(written(dest)) + 4
 //@   ensures bytes: result == nil ==> wbe4(dest, old(written(dest))) == uint32(i)
 //@ func WriteLong
 //@   prop C03, C02
 //@   assigns wstream(dest)
+//@   ensures inmem: inmemory(dest) ==> result == nil
 //@   ensures len: result == nil ==> written(dest) == old(written(dest)) + 8
 //@   ensures bytes: result == nil ==> wbe8(dest, old(written(dest))) == uint64(l)
 
@@ -186,41 +190,86 @@ package primitive
 //@ func ReadByte
 //@   prop C02, C04
 //@   assigns rstream(source)
+//@   ensures inmem: inmemory(source) && old(pos(source)) + 1 <= avail(source) ==> err == nil
 //@   ensures bytes: err == nil ==> pos(source) == old(pos(source)) + 1 && decoded == rbyte(source, old(pos(source)))
 //@ func ReadShort
 //@   prop C02, C04
 //@   assigns rstream(source)
+//@   ensures inmem: inmemory(source) && old(pos(source)) + 2 <= avail(source) ==> err == nil
 //@   ensures bytes: err == nil ==> pos(source) == old(pos(source)) + 2 && decoded == rbe2(source, old(pos(source)))
 //@ func ReadInt
 //@   prop C02, C04
 //@   assigns rstream(source)
+//@   ensures inmem: inmemory(source) && old(pos(source)) + 4 <= avail(source) ==> err == nil
 //@   ensures bytes: err == nil ==> pos(source) == old(pos(source)) + 4 && uint32(decoded) == rbe4(source, old(pos(source)))
 //@ func ReadLong
 //@   prop C02, C04
 //@   assigns rstream(source)
+//@   ensures inmem: inmemory(source) && old(pos(source)) + 8 <= avail(source) ==> err == nil
 //@   ensures bytes: err == nil ==> pos(source) == old(pos(source)) + 8 && uint64(decoded) == rbe8(source, old(pos(source)))
 //@ func ReadStreamId
 //@   prop C02, C04
 //@   assigns rstream(source)
+//@   ensures inmem: inmemory(source) && old(pos(source)) + 2 <= avail(source) ==> result1 == nil
 //@   ensures v3: result1 == nil && version >= ProtocolVersion3 ==> pos(source) == old(pos(source)) + 2 && uint16(result0) == rbe2(source, old(pos(source)))
 //@   ensures v2: result1 == nil && version < ProtocolVersion3 ==> pos(source) == old(pos(source)) + 1 && result0 == int16(int8(rbyte(source, old(pos(source)))))
 
+// [string]: a [short] n followed by n bytes; [long string]: an [int] n followed by n bytes
 //@ func WriteString
-//@   prop C03
+//@   prop C03, C02
 //@   assigns wstream(dest)
+//@   let w0 = written(dest)
 //@   ensures len: result == nil ==> written(dest) == old(written(dest)) + LengthOfString(s)
+//@   ensures length: result == nil && len(s) <= 65535 ==> wbe2(dest, w0) == uint16(len(s))
+//@   ensures content: result == nil ==> forall k int :: 0 <= k && k < len(s) ==> wbyte(dest, w0 + 2 + k) == s[k]
+//@ func ReadString
+//@   prop C02, C04
+//@   assigns rstream(source)
+//@   let p0 = pos(source)
+//@   ensures length: result1 == nil ==> len(result0) == int(rbe2(source, p0)) && pos(source) == p0 + 2 + len(result0)
+//@   ensures content: result1 == nil ==> forall k int :: 0 <= k && k < len(result0) ==> result0[k] == rbyte(source, p0 + 2 + k)
 //@ func WriteLongString
-//@   prop C03
+//@   prop C03, C02
 //@   assigns wstream(dest)
+//@   let w0 = written(dest)
 //@   ensures len: result == nil ==> written(dest) == old(written(dest)) + LengthOfLongString(s)
+//@   ensures length: result == nil && len(s) <= 2147483647 ==> wbe4(dest, w0) == uint32(len(s))
+//@   ensures content: result == nil ==> forall k int :: 0 <= k && k < len(s) ==> wbyte(dest, w0 + 4 + k) == s[k]
+//@ func ReadLongString
+//@   prop C02, C04
+//@   assigns rstream(source)
+//@   let p0 = pos(source)
+//@   ensures length: result1 == nil && int32(rbe4(source, p0)) >= 0 ==> len(result0) == int(int32(rbe4(source, p0))) && pos(source) == p0 + 4 + len(result0)
+//@   ensures content: result1 == nil && int32(rbe4(source, p0)) >= 0 ==> forall k int :: 0 <= k && k < len(result0) ==> result0[k] == rbyte(source, p0 + 4 + k)
+// [bytes]: an [int] n followed by n bytes, n < 0 for null; [short bytes]: a [short] n followed by n bytes
 //@ func WriteBytes
-//@   prop C03
+//@   prop C03, C02
 //@   assigns wstream(dest)
+//@   let w0 = written(dest)
 //@   ensures len: result == nil ==> written(dest) == old(written(dest)) + LengthOfBytes(b)
+//@   ensures null: result == nil && isnil(b) ==> wbe4(dest, w0) == uint32(0xFFFFFFFF)
+//@   ensures length: result == nil && !isnil(b) && len(b) <= 2147483647 ==> wbe4(dest, w0) == uint32(len(b))
+//@   ensures content: result == nil && !isnil(b) ==> forall k int :: 0 <= k && k < len(b) ==> wbyte(dest, w0 + 4 + k) == b[k]
+//@ func ReadBytes
+//@   prop C02, C04
+//@   assigns rstream(source)
+//@   let p0 = pos(source)
+//@   ensures null: result1 == nil && int32(rbe4(source, p0)) < 0 ==> isnil(result0) && pos(source) == p0 + 4
+//@   ensures length: result1 == nil && int32(rbe4(source, p0)) >= 0 ==> !isnil(result0) && len(result0) == int(int32(rbe4(source, p0))) && pos(source) == p0 + 4 + len(result0)
+//@   ensures content: result1 == nil && int32(rbe4(source, p0)) >= 0 ==> forall k int :: 0 <= k && k < len(result0) ==> result0[k] == rbyte(source, p0 + 4 + k)
 //@ func WriteShortBytes
-//@   prop C03
+//@   prop C03, C02
 //@   assigns wstream(dest)
+//@   let w0 = written(dest)
 //@   ensures len: result == nil ==> written(dest) == old(written(dest)) + LengthOfShortBytes(b)
+//@   ensures length: result == nil && len(b) <= 65535 ==> wbe2(dest, w0) == uint16(len(b))
+//@   ensures content: result == nil ==> forall k int :: 0 <= k && k < len(b) ==> wbyte(dest, w0 + 2 + k) == b[k]
+//@ func ReadShortBytes
+//@   prop C02, C04
+//@   assigns rstream(source)
+//@   let p0 = pos(source)
+//@   ensures length: result1 == nil ==> !isnil(result0) && len(result0) == int(rbe2(source, p0)) && pos(source) == p0 + 2 + len(result0)
+//@   ensures content: result1 == nil ==> forall k int :: 0 <= k && k < len(result0) ==> result0[k] == rbyte(source, p0 + 2 + k)
 //@ func WriteUuid
 //@   prop C03
 //@   nilable uuid
@@ -243,6 +292,7 @@ package primitive
 //@ func WriteStreamId
 //@   prop C03, C02
 //@   assigns wstream(dest)
+//@   ensures inmem: inmemory(dest) && (version >= ProtocolVersion3 || (-128 <= streamId && streamId <= 127)) ==> result == nil
 //@   ensures len: result == nil ==> written(dest) == old(written(dest)) + ite(version >= ProtocolVersion3, int(2), int(1))
 //@   ensures v3: result == nil && version >= ProtocolVersion3 ==> wbe2(dest, old(written(dest))) == uint16(streamId)
 //@   ensures v2: result == nil && version < ProtocolVersion3 ==> int16(int8(wbyte(dest, old(written(dest))))) == streamId
